@@ -14,6 +14,8 @@ a step is not enabled (whereas `runFrom` skips such steps).
 namespace SR.Checker.MSim
 open SR SR.Checker
 
+deriving instance DecidableEq for Step
+
 section
 variable {σ κ α : Type} [DecidableEq σ] [DecidableEq κ] (P : Params σ κ α)
 
